@@ -18,13 +18,12 @@ def resStr : Res → String
   | .err => "err"
   | .exp => "exp"
 
-/-- `exp` = outside the model (hexadecimal float / underscores), `impl` = float → int64 conversion out of range -/
+/-- `impl` = float → int64 conversion out of range -/
 def resXStr : ResX → String
   | .ok v => "ok:" ++ toString v
   | .err => "err"
   | .implDefined => "impl"
   | .panic => "panic"
-  | .outside => "exp"
 
 def target? : String → Option Target
   | "i8" => some ⟨8, true⟩ | "i16" => some ⟨16, true⟩ | "i32" => some ⟨32, true⟩ | "i64" => some ⟨64, true⟩
